@@ -11,6 +11,23 @@ Local Open Scope Z_scope.
 (* ================================================================================================ *)
 (* Part 1: encoding                                                                                  *)
 
+(* the two early `return False` of verify_message's str branch *)
+Definition key_refused (key : keyref) : bool :=
+  match key with
+  | KUnparseable => true
+  | KAddr k _ => negb (refers_to_key k)
+  | _ => false
+  end.
+
+(* "key is the signer (x, y) in compression form c": what a key or address must be for a signature to verify *)
+Definition key_is_signer (hash160 : bytes -> bytes) (key : keyref) (x y : Z) (c : bool) : Prop :=
+  match key with
+  | KPair x' y' => x' = x /\ y' = y
+  | KHash h => exists sec, public_pair_to_sec x y c = Ret sec /\ h = Some (hash160 sec)
+  | KAddr k h => refers_to_key k = true /\ exists sec, public_pair_to_sec x y c = Ret sec /\ h = Some (hash160 sec)
+  | KUnparseable => False
+  end.
+
 Lemma Ret_inj {A} (a b : A) : Ret a = Ret b -> a = b.
 Proof. intros H. injection H. auto. Qed.
 
@@ -188,19 +205,36 @@ Section Total.
   Lemma matches_total q key c : onc q -> coords q <> None -> key <> KUnparseable ->
     exists b, matches q key c = Ret b.
   Proof.
-    intros Oq Hq Hk. destruct key as [x y|h|]; [| |congruence]; cbn [pair_matches_key]; [eauto|].
-    destruct (coords q) as [[qx qy]|] eqn:E; [|congruence].
-    destruct (coords_range _ _ _ Oq E) as [Hx Hy].
-    destruct (sec_total qx qy c Hx Hy) as [sec ->]. cbn [bind]. eauto.
+    intros Oq Hq Hk. destruct key as [x y|h|k h|]; [| | |congruence]; cbn [pair_matches_key]; [eauto| |];
+    (destruct (coords q) as [[qx qy]|] eqn:E; [|congruence];
+     destruct (coords_range _ _ _ Oq E) as [Hx Hy];
+     destruct (sec_total qx qy c Hx Hy) as [sec ->]; cbn [bind]; eauto).
   Qed.
+
+  Lemma verify_unfold_t key text magic message msg_hash :
+    verify key text magic message msg_hash =
+    if key_refused key then Ret false else
+    match bind (match message with
+                | Some m => hash_for_signing dsha256 magic m
+                | None => Ret (match msg_hash with Some h => h | None => 0 end)
+                end) (fun z => pair_for text z) with
+    | Raise E_ENCODING => Ret false
+    | Raise e => Raise e
+    | OutOfFuel => OutOfFuel
+    | Ret (q, c) => matches q key c
+    end.
+  Proof. reflexivity. Qed.
+
+  Lemma not_refused key : key_refused key = false -> key <> KUnparseable.
+  Proof. intros H ->. discriminate. Qed.
 
   (* verification with an explicit hash (msg_hash=...) or without message and hash (hash 0) *)
   Lemma verify_total_hash key text magic msg_hash :
     exists b, verify key text magic None msg_hash = Ret b.
   Proof.
-    unfold verify_message. destruct key as [x y|h|]; [| |eauto]; cbn [bind];
-    (destruct (pair_for_class text (match msg_hash with Some h0 => h0 | None => 0 end))
-       as [(q & c & -> & Oq & Hq) | ->]; [|eauto]); apply matches_total; auto; discriminate.
+    rewrite verify_unfold_t. destruct (key_refused key) eqn:Ek; [eauto|]. cbn [bind].
+    destruct (pair_for_class text (match msg_hash with Some h0 => h0 | None => 0 end))
+       as [(q & c & -> & Oq & Hq) | ->]; [|eauto]. apply matches_total; auto. now apply not_refused.
   Qed.
 
   (* verification of a text message: total as soon as the two strings can be framed (length < 2^64) *)
@@ -218,9 +252,9 @@ Section Total.
     exists b, verify key text magic (Some m) msg_hash = Ret b.
   Proof.
     intros H1 H2. destruct (hash_for_signing_total magic m H1 H2) as [z Hz].
-    unfold verify_message. rewrite Hz. destruct key as [x y|h|]; [| |eauto]; cbn [bind];
-    (destruct (pair_for_class text z) as [(q & c & -> & Oq & Hq) | ->]; [|eauto]);
-    apply matches_total; auto; discriminate.
+    rewrite verify_unfold_t, Hz. destruct (key_refused key) eqn:Ek; [eauto|]. cbn [bind].
+    destruct (pair_for_class text z) as [(q & c & -> & Oq & Hq) | ->]; [|eauto].
+    apply matches_total; auto. now apply not_refused.
   Qed.
 End Total.
 
@@ -348,9 +382,15 @@ Section Recover.
     | Ret (q, c) => matches q key c
     end.
 
-  Lemma verify_hash_unfold key text magic z : key <> KUnparseable ->
+  Lemma verify_hash_unfold key text magic z : key_refused key = false ->
     verify key text magic None (Some z) = verify_with key text z.
-  Proof. intros H. destruct key; [reflexivity|reflexivity|congruence]. Qed.
+  Proof. intros H. destruct key as [x y|h|[| |] h|]; try discriminate; reflexivity. Qed.
+
+  (* an address that does not refer to a key (P2SH, P2WSH, P2TR, unknown kind) and an unparseable address never
+     verify, whatever the signature text, message or hash *)
+  Lemma verify_refused key text magic message mh : key_refused key = true ->
+    verify key text magic message mh = Ret false.
+  Proof. intros H. destruct key as [x y|h|[| |] h|]; try discriminate; reflexivity. Qed.
 
   Lemma verify_msg_unfold key text magic m mh z : hash_for_signing dsha256 magic m = Ret z ->
     verify key text magic (Some m) mh = verify key text magic None (Some z).
@@ -366,18 +406,29 @@ Section Recover.
     now rewrite bytes_eqb_refl.
   Qed.
 
+  Lemma matches_addr_true q x y c sec k : coords q = Some (x, y) -> public_pair_to_sec x y c = Ret sec ->
+    matches q (KAddr k (Some (hash160 sec))) c = Ret true.
+  Proof.
+    intros E Hs. cbn [pair_matches_key]. rewrite E, Hs. cbn [bind opt_bytes_eqb].
+    now rewrite bytes_eqb_refl.
+  Qed.
+
   (* exactly which keys a recovered point matches *)
   Lemma matches_true_inv q key c : matches q key c = Ret true ->
     exists x y, coords q = Some (x, y) /\
       match key with
       | KPair x' y' => x' = x /\ y' = y
-      | KHash h => exists sec, public_pair_to_sec x y c = Ret sec /\ h = Some (hash160 sec)
+      | KHash h | KAddr _ h => exists sec, public_pair_to_sec x y c = Ret sec /\ h = Some (hash160 sec)
       | KUnparseable => False
       end.
   Proof.
-    destruct key as [x' y'|h|]; cbn [pair_matches_key]; [| |discriminate].
+    destruct key as [x' y'|h|k h|]; cbn [pair_matches_key]; [| | |discriminate].
     - destruct (coords q) as [[qx qy]|]; [|discriminate]. intros H. apply Ret_inj in H.
       apply andb_true_iff in H. destruct H as [H1 H2]. apply Z.eqb_eq in H1, H2. eauto.
+    - destruct (coords q) as [[qx qy]|]; [|discriminate].
+      destruct (public_pair_to_sec qx qy c) as [sec| |] eqn:Es; cbn [bind]; try discriminate.
+      intros H. apply Ret_inj in H. exists qx, qy. split; [reflexivity|]. exists sec. split; [first [exact Es | reflexivity]|].
+      destruct h as [h|]; cbn [opt_bytes_eqb] in H; [|discriminate]. apply bytes_eqb_eq in H. now subst.
     - destruct (coords q) as [[qx qy]|]; [|discriminate].
       destruct (public_pair_to_sec qx qy c) as [sec| |] eqn:Es; cbn [bind]; try discriminate.
       intros H. apply Ret_inj in H. exists qx, qy. split; [reflexivity|]. exists sec. split; [first [exact Es | reflexivity]|].
@@ -398,29 +449,47 @@ Section Recover.
     exists x y, coords (smul d G) = Some (x, y) /\
       verify (KPair x y) text magic None (Some z) = Ret true /\
       forall sec, public_pair_to_sec x y c = Ret sec ->
-        verify (KHash (Some (hash160 sec))) text magic None (Some z) = Ret true.
+        verify (KHash (Some (hash160 sec))) text magic None (Some z) = Ret true /\
+        forall k, refers_to_key k = true ->
+          verify (KAddr k (Some (hash160 sec))) text magic None (Some z) = Ret true.
   Proof.
     intros Hd H. pose proof (sign_recovers _ _ _ _ _ Hd H) as R. split; [exact R|].
     destruct (coords (smul d G)) as [[x y]|] eqn:E; [|apply smulG_inf in E; contradiction].
     exists x, y. split; [reflexivity|]. split.
-    - rewrite verify_hash_unfold by discriminate. unfold verify_with. rewrite R. exact (matches_pair_true _ x y c E).
-    - intros sec Hs. rewrite verify_hash_unfold by discriminate. unfold verify_with. rewrite R.
-      exact (matches_hash_true _ x y c sec E Hs).
+    - rewrite verify_hash_unfold by reflexivity. unfold verify_with. rewrite R. exact (matches_pair_true _ x y c E).
+    - intros sec Hs. split.
+      + rewrite verify_hash_unfold by reflexivity. unfold verify_with. rewrite R.
+        exact (matches_hash_true _ x y c sec E Hs).
+      + intros k Hk. rewrite verify_hash_unfold by (cbn [key_refused]; now rewrite Hk). unfold verify_with. rewrite R.
+        exact (matches_addr_true _ x y c sec k E Hs).
   Qed.
 
   (* ---- (b) with the signed hash, nothing but the signer's pair / the hash160 of its SEC form verifies - *)
+  Lemma verify_true_inv key text z magic : verify key text magic None (Some z) = Ret true ->
+    key_refused key = false /\ verify_with key text z = Ret true.
+  Proof.
+    intros V. destruct (key_refused key) eqn:Ek.
+    - rewrite (verify_refused _ _ _ _ _ Ek) in V. discriminate.
+    - split; [reflexivity|]. now rewrite <- (verify_hash_unfold _ _ magic _ Ek).
+  Qed.
+
+  Lemma signer_of_match key q c x y : key_refused key = false -> matches q key c = Ret true ->
+    coords q = Some (x, y) -> key_is_signer hash160 key x y c.
+  Proof.
+    intros Ek M Ec. apply matches_true_inv in M. destruct M as (x0 & y0 & E0 & M).
+    rewrite Ec in E0. injection E0 as <- <-.
+    destruct key as [x' y'|h|k h|]; cbn [key_is_signer]; auto.
+    split; [|exact M]. cbn [key_refused] in Ek. now apply negb_false_iff in Ek.
+  Qed.
+
   Lemma sign_only_signer fuel d z c text magic key : d mod n <> 0 -> sign_sig fuel d z c = Ret text ->
     verify key text magic None (Some z) = Ret true ->
-    exists x y, coords (smul d G) = Some (x, y) /\
-      match key with
-      | KPair x' y' => x' = x /\ y' = y
-      | KHash h => exists sec, public_pair_to_sec x y c = Ret sec /\ h = Some (hash160 sec)
-      | KUnparseable => False
-      end.
+    exists x y, coords (smul d G) = Some (x, y) /\ key_is_signer hash160 key x y c.
   Proof.
-    intros Hd H V. destruct key as [x' y'|h|]; [| |discriminate];
-    (rewrite verify_hash_unfold in V by discriminate; unfold verify_with in V;
-     rewrite (sign_recovers _ _ _ _ _ Hd H) in V; now apply matches_true_inv in V).
+    intros Hd H V. apply verify_true_inv in V. destruct V as [Ek V]. unfold verify_with in V.
+    rewrite (sign_recovers _ _ _ _ _ Hd H) in V.
+    destruct (coords (smul d G)) as [[x y]|] eqn:E; [|apply smulG_inf in E; contradiction].
+    exists x, y. split; [reflexivity|]. exact (signer_of_match _ _ _ _ _ Ek V E).
   Qed.
 
   (* ---- (c) another hash ------------------------------------------------------------------------------ *)
@@ -457,7 +526,7 @@ Section Recover.
     d mod n <> 0 -> sign_sig fuel d z c = Ret text -> coords (smul d G) = Some (x, y) ->
     (verify (KPair x y) text magic None (Some z') = Ret true <-> z' mod n = z mod n).
   Proof.
-    intros Hd H Ec. rewrite verify_hash_unfold by discriminate. unfold verify_with.
+    intros Hd H Ec. rewrite verify_hash_unfold by reflexivity. unfold verify_with.
     destruct (sign_other_hash _ _ _ _ _ z' H) as [Same Other]. split.
     - intros V. destruct (Z.eq_dec (z' mod n) (z mod n)) as [E|E]; [exact E|exfalso].
       destruct (Other E) as [R | (e & Hne & _ & R)]; rewrite R in V; [discriminate|].
@@ -468,19 +537,19 @@ Section Recover.
 
   (* by address: under another hash the address that verifies belongs to a DIFFERENT point e·G; so the
      signer's own address verifies only if hash160 collides on the SEC forms of e·G and d·G *)
-  Lemma sign_other_hash_addr fuel d z c text magic h z' :
+  Lemma sign_other_hash_addr fuel d z c text magic key z' :
     sign_sig fuel d z c = Ret text ->
-    verify (KHash h) text magic None (Some z') = Ret true ->
+    (exists h, key = KHash h) \/ (exists k h, key = KAddr k h) ->
+    verify key text magic None (Some z') = Ret true ->
     z' mod n = z mod n \/
-    exists e x' y' sec', smul e G <> smul d G /\ coords (smul e G) = Some (x', y') /\
-      public_pair_to_sec x' y' c = Ret sec' /\ h = Some (hash160 sec').
+    exists e x' y', smul e G <> smul d G /\ coords (smul e G) = Some (x', y') /\ key_is_signer hash160 key x' y' c.
   Proof.
-    intros H V. rewrite verify_hash_unfold in V by discriminate. unfold verify_with in V.
+    intros H _ V. apply verify_true_inv in V. destruct V as [Ek V]. unfold verify_with in V.
     destruct (Z.eq_dec (z' mod n) (z mod n)) as [E|E]; [now left|right].
     destruct (sign_other_hash _ _ _ _ _ z' H) as [_ Other].
-    destruct (Other E) as [R | (e & Hne & _ & R)]; rewrite R in V; [discriminate|].
-    apply matches_true_inv in V. destruct V as (x0 & y0 & Ee & sec & Hs & ->).
-    exists e, x0, y0, sec. auto.
+    destruct (Other E) as [R | (e & Hne & Hfin & R)]; rewrite R in V; [discriminate|].
+    destruct (coords (smul e G)) as [[x0 y0]|] eqn:Ee; [|congruence].
+    exists e, x0, y0. split; [exact Hne|]. split; [first [exact Ee | reflexivity]|]. exact (signer_of_match _ _ _ _ _ Ek V Ee).
   Qed.
 
   (* ---- (d) the text-message level: sign_message / verify_message(message=...) ------------------------ *)
@@ -500,34 +569,36 @@ Section Recover.
     exists x y, coords (smul d G) = Some (x, y) /\
       verify (KPair x y) text magic (Some m) None = Ret true /\
       forall sec, public_pair_to_sec x y c = Ret sec ->
-        verify (KHash (Some (hash160 sec))) text magic (Some m) None = Ret true.
+        verify (KHash (Some (hash160 sec))) text magic (Some m) None = Ret true /\
+        forall k, refers_to_key k = true ->
+          verify (KAddr k (Some (hash160 sec))) text magic (Some m) None = Ret true.
   Proof.
     intros Hd H. destruct (sign_message_inv _ _ _ _ _ _ H) as (z & Hz & Hs).
     destruct (sign_verifies _ _ _ _ _ magic Hd Hs) as (R & x & y & Ec & V1 & V2).
     exists z. split; [exact Hz|]. split; [exact R|]. exists x, y. split; [exact Ec|].
     split; [now rewrite (verify_msg_unfold _ _ _ _ _ _ Hz)|].
-    intros sec Hsec. rewrite (verify_msg_unfold _ _ _ _ _ _ Hz). now apply V2.
+    intros sec Hsec. destruct (V2 sec Hsec) as [V3 V4]. split.
+    - now rewrite (verify_msg_unfold _ _ _ _ _ _ Hz).
+    - intros k Hk. rewrite (verify_msg_unfold _ _ _ _ _ _ Hz). now apply V4.
   Qed.
 
   Lemma verify_msg_true_inv key text magic m' mh : verify key text magic (Some m') mh = Ret true ->
     exists z', hash_msg magic m' = Ret z' /\ verify key text magic None (Some z') = Ret true.
   Proof.
-    intros V. destruct (hash_msg magic m') as [z'| |] eqn:Hz.
+    intros V. destruct (key_refused key) eqn:Ek.
+    { rewrite (verify_refused _ _ _ _ _ Ek) in V. discriminate. }
+    destruct (hash_msg magic m') as [z'| |] eqn:Hz.
     - exists z'. split; [reflexivity|]. now rewrite <- (verify_msg_unfold _ _ _ _ mh _ Hz).
-    - unfold verify_message in V. rewrite Hz in V. destruct key; cbn [bind] in V; try discriminate;
-      destruct e; discriminate.
-    - unfold verify_message in V. rewrite Hz in V. destruct key; cbn [bind] in V; discriminate.
+    - unfold verify_message in V. rewrite Hz in V.
+      destruct key as [x y|h|[| |] h|]; try discriminate Ek; cbn [bind] in V; destruct e; discriminate.
+    - unfold verify_message in V. rewrite Hz in V.
+      destruct key as [x y|h|[| |] h|]; try discriminate Ek; cbn [bind] in V; discriminate.
   Qed.
 
   Lemma sign_message_only_signer fuel magic d c m text key :
     d mod n <> 0 -> sign_msg fuel magic d c m = Ret text ->
     verify key text magic (Some m) None = Ret true ->
-    exists x y, coords (smul d G) = Some (x, y) /\
-      match key with
-      | KPair x' y' => x' = x /\ y' = y
-      | KHash h => exists sec, public_pair_to_sec x y c = Ret sec /\ h = Some (hash160 sec)
-      | KUnparseable => False
-      end.
+    exists x y, coords (smul d G) = Some (x, y) /\ key_is_signer hash160 key x y c.
   Proof.
     intros Hd H V. destruct (sign_message_inv _ _ _ _ _ _ H) as (z & Hz & Hs).
     rewrite (verify_msg_unfold _ _ _ _ _ _ Hz) in V. exact (sign_only_signer _ _ _ _ _ _ _ Hd Hs V).
